@@ -145,7 +145,14 @@ pub fn run(tier: Tier, replay: Option<String>) -> i32 {
         }
         // typed helpers
         if let Some(ts) = typed::find(&typed_sets, exp, dir) {
-            let tpool = build_pool(&corpus, ep.as_ref(), seed, 3, Some(ts.names));
+            let mut tpool = build_pool(&corpus, ep.as_ref(), seed, 3, Some(ts.names));
+            for n in extra {
+                if let Ok(f) = typed::warden_write(exp, dir, *n) {
+                    if let Outcome::Ok { debug, .. } = ep.read_one(&f) {
+                        tpool.frames.push((warden.to_string(), f, debug));
+                    }
+                }
+            }
             if !tpool.frames.is_empty() {
                 let tn = tpool.frames.len();
                 let strat = (prop::collection::vec(any::<u8>(), 40), prop::collection::vec(0..tn, 1..=10), 0usize..3);
